@@ -2,30 +2,36 @@
 // functions, not catalogue models) on test functions that the extracted Coq
 // model can evaluate identically (same operations in the same order).
 //
-//		ROOT <fspec> <dspec> x0 a b tol conv n
-//		    fspec := POLY k c0 .. c(k-1)      Horner  c0 + x*(c1 + x*(...))
-//		           | PWL  k x0..x(k-1) y0..y(k-1)   piecewise linear, constant outside
-//		           | POW  k m c               k*math.Pow(x,m) - c
-//		           | SHPOW k r p              k*(x-r)^p, p a decimal integer, by repeated multiplication
-//		           | PWT  k x0..x(k-1) y0..y(k-1)   fn.Piecewise(x, xs, ys), -1 on error
-//		    dspec := NONE | fspec             (fn_dx; NONE = nil)
-//		    floats as 16 hex digits, n decimal
-//		  -> OK <x> <delta> E <ne> <eval points of fn..> D <nd> <eval points of fn_dx..>
-//		     (NaN printed as "nan")  |  PANIC
-//		PIECEWISE n xs.. ys.. q   -> OK <y> | ERR | PANIC
+//			ROOT <fspec> <dspec> x0 a b tol conv n
+//			    fspec := POLY k c0 .. c(k-1)      Horner  c0 + x*(c1 + x*(...))
+//			           | PWL  k x0..x(k-1) y0..y(k-1)   piecewise linear, constant outside
+//			           | POW  k m c               k*math.Pow(x,m) - c
+//			           | SHPOW k r p              k*(x-r)^p, p a decimal integer, by repeated multiplication
+//			           | PWT  k x0..x(k-1) y0..y(k-1)   fn.Piecewise(x, xs, ys), -1 on error
+//			    dspec := NONE | fspec             (fn_dx; NONE = nil)
+//			    floats as 16 hex digits, n decimal
+//			  -> OK <x> <delta> E <ne> <eval points of fn..> D <nd> <eval points of fn_dx..>
+//			     (NaN printed as "nan")  |  PANIC
+//			PIECEWISE n xs.. ys.. q   -> OK <y> | ERR | PANIC
 //
-//	  PWLAY <xlayout> <ylayout> n xs.. ys.. q   -> as PIECEWISE; the two tables are handed to Piecewise as views
-//	      of larger arrays, the way callers store them (Piecewise must not care how a table is stored):
-//	      layout := P                                  plain 1-d array
-//	              | COL b nsets set pad short          column `set` of a [n+pad, nsets] block, cut as the generated
-//	                                                   model wrappers do: block.Slice([0,set],[n],nil) (short=1, a
-//	                                                   rank-deficient view) or Slice([0,set],[n,1],nil).MustReshape([n])
-//	              | COL2 b nsets set r0 pad            the same column of the row range r0.. of a taller block (slice of a slice)
-//	              | COLSTR b nsets set step            every step-th row of the column: Slice([0,set],[n],[step,1])
-//	              | STR b off step tail                strided view of a 1-d array: Slice([off],[n],[step])
-//	              | STR2 b off1 s1 off2 s2             a stepped view of a stepped view (thinned twice)
-//	      b := G (Go-backed, data.ArrayFromSliceFloat64) | C (C-style memory, cdata.NewFloat64CArray);
-//	      cells that do not belong to the table hold -(1000+position)
+//		  PWLAY <xlayout> <ylayout> n xs.. ys.. q   -> as PIECEWISE; the two tables are handed to Piecewise as views
+//		      of larger arrays, the way callers store them (Piecewise must not care how a table is stored):
+//		      layout := P                                  plain 1-d array
+//		              | COL b nsets set pad short          column `set` of a [n+pad, nsets] block, cut as the generated
+//		                                                   model wrappers do: block.Slice([0,set],[n],nil) (short=1, a
+//		                                                   rank-deficient view) or Slice([0,set],[n,1],nil).MustReshape([n])
+//		              | COL2 b nsets set r0 pad            the same column of the row range r0.. of a taller block (slice of a slice)
+//		              | COLSTR b nsets set step            every step-th row of the column: Slice([0,set],[n],[step,1])
+//		              | STR b off step tail                strided view of a 1-d array: Slice([off],[n],[step])
+//		              | STR2 b off1 s1 off2 s2             a stepped view of a stepped view (thinned twice)
+//		      b := G (Go-backed, data.ArrayFromSliceFloat64) | C (C-style memory, cdata.NewFloat64CArray);
+//		      cells that do not belong to the table hold -(1000+position)
+//
+//	  PWOPS T nt {<xlayout> <ylayout> n xs.. ys..}*nt OPS m op*m     long-lived table objects that are looked up and
+//	      CHANGED IN PLACE between lookups: op := L t x (lookup) | SX/SY t k v (one knot through the table object)
+//	      | BX/BY t k v (one knot through the array the table is a view of) | WX/WY t v.. (all knots, through the
+//	      object) | PX/PY t v.. (all knots, through the parent) | CX/CY t v.. (CopyFrom)
+//	    -> OK O <lookups> | <output of lookup 1> | ..
 //
 // Re-entrancy (the Coq model is a pure function, so the CODE's re-entrancy has to be exercised):
 //
@@ -122,6 +128,11 @@ func c18parseFn(t *toks) func(float64) float64 {
 			}
 			return k * acc
 		}
+	case "DIV":
+		// quotient of two functions (IEEE: x/0 = +-Inf, 0/0 = NaN)
+		num := c18parseFn(t)
+		den := c18parseFn(t)
+		return func(x float64) float64 { return num(x) / den(x) }
 	case "PWT":
 		// a table lookup through the library's own Piecewise (error -> -1)
 		k := t.int()
@@ -202,8 +213,17 @@ func c18filler(n int) []float64 {
 	return buf
 }
 
-// c18layout parses one layout and returns the table as the view it describes (and the buffer, to keep it alive).
-func c18layout(t *toks, vals []float64) (data.ND1Float64, []float64) {
+// c18tab is a table handed to Piecewise as some view: the view itself, the array it is a view of, the index of
+// knot k in that parent, and the buffer (kept alive for C-style memory).
+type c18tab struct {
+	view   data.ND1Float64
+	parent data.NDFloat64
+	pidx   func(k int) []int
+	buf    []float64
+}
+
+// c18layout parses one layout and returns the table as the view it describes.
+func c18layout(t *toks, vals []float64) c18tab {
 	n := len(vals)
 	kind := t.next()
 	if kind == "P" {
@@ -211,7 +231,7 @@ func c18layout(t *toks, vals []float64) (data.ND1Float64, []float64) {
 		for i, v := range vals {
 			a.Set1(i, v)
 		}
-		return a, nil
+		return c18tab{a, a, func(k int) []int { return []int{k} }, nil}
 	}
 	b := t.next()
 	switch kind {
@@ -222,10 +242,11 @@ func c18layout(t *toks, vals []float64) (data.ND1Float64, []float64) {
 			buf[k*nsets+set] = v
 		}
 		base := c18base(b, buf, []int{n + pad, nsets})
+		pidx := func(k int) []int { return []int{k, set} }
 		if short == 1 {
-			return base.Slice([]int{0, set}, []int{n}, nil).(data.ND1Float64), buf
+			return c18tab{base.Slice([]int{0, set}, []int{n}, nil).(data.ND1Float64), base, pidx, buf}
 		}
-		return base.Slice([]int{0, set}, []int{n, 1}, nil).MustReshape([]int{n}).(data.ND1Float64), buf
+		return c18tab{base.Slice([]int{0, set}, []int{n, 1}, nil).MustReshape([]int{n}).(data.ND1Float64), base, pidx, buf}
 	case "COL2":
 		nsets, set, r0, pad := t.int(), t.int(), t.int(), t.int()
 		buf := c18filler((r0 + n + pad) * nsets)
@@ -234,7 +255,8 @@ func c18layout(t *toks, vals []float64) (data.ND1Float64, []float64) {
 		}
 		base := c18base(b, buf, []int{r0 + n + pad, nsets})
 		rows := base.Slice([]int{r0, 0}, []int{n, nsets}, nil)
-		return rows.Slice([]int{0, set}, []int{n}, nil).(data.ND1Float64), buf
+		return c18tab{rows.Slice([]int{0, set}, []int{n}, nil).(data.ND1Float64), base,
+			func(k int) []int { return []int{r0 + k, set} }, buf}
 	case "COLSTR":
 		nsets, set, step := t.int(), t.int(), t.int()
 		rows := (n-1)*step + 1
@@ -243,7 +265,8 @@ func c18layout(t *toks, vals []float64) (data.ND1Float64, []float64) {
 			buf[k*step*nsets+set] = v
 		}
 		base := c18base(b, buf, []int{rows, nsets})
-		return base.Slice([]int{0, set}, []int{n}, []int{step, 1}).(data.ND1Float64), buf
+		return c18tab{base.Slice([]int{0, set}, []int{n}, []int{step, 1}).(data.ND1Float64), base,
+			func(k int) []int { return []int{k * step, set} }, buf}
 	case "STR":
 		off, step, tail := t.int(), t.int(), t.int()
 		buf := c18filler(off + (n-1)*step + 1 + tail)
@@ -251,7 +274,8 @@ func c18layout(t *toks, vals []float64) (data.ND1Float64, []float64) {
 			buf[off+k*step] = v
 		}
 		base := c18base(b, buf, []int{len(buf)})
-		return base.Slice([]int{off}, []int{n}, []int{step}).(data.ND1Float64), buf
+		return c18tab{base.Slice([]int{off}, []int{n}, []int{step}).(data.ND1Float64), base,
+			func(k int) []int { return []int{off + k*step} }, buf}
 	case "STR2":
 		off1, s1, off2, s2 := t.int(), t.int(), t.int(), t.int()
 		m := off2 + (n-1)*s2 + 1
@@ -261,10 +285,38 @@ func c18layout(t *toks, vals []float64) (data.ND1Float64, []float64) {
 		}
 		base := c18base(b, buf, []int{len(buf)})
 		v1 := base.Slice([]int{off1}, []int{m}, []int{s1})
-		return v1.Slice([]int{off2}, []int{n}, []int{s2}).(data.ND1Float64), buf
+		return c18tab{v1.Slice([]int{off2}, []int{n}, []int{s2}).(data.ND1Float64), base,
+			func(k int) []int { return []int{off1 + (off2+k*s2)*s1} }, buf}
 	default:
 		panic("bad layout " + kind)
 	}
+}
+
+// c18skipLayout advances over one layout.
+func c18skipLayout(t *toks) {
+	switch t.next() {
+	case "P":
+	case "COL", "COL2", "STR2":
+		t.i += 5
+	case "COLSTR", "STR":
+		t.i += 4
+	default:
+		panic("bad layout")
+	}
+}
+
+// c18lookup is one Piecewise call reported as OK <y> | ERR | PANIC.
+func c18lookup(q float64, xs, ys data.ND1Float64) (out string) {
+	defer func() {
+		if r := recover(); r != nil {
+			out = "PANIC"
+		}
+	}()
+	y, err := fn.Piecewise(q, xs, ys)
+	if err != nil {
+		return "ERR"
+	}
+	return "OK " + c18hex(y)
 }
 
 func c18parsePiecewise(t *toks) func(yield bool) string {
@@ -338,36 +390,80 @@ func init() {
 		fmt.Fprintln(w, c18parsePiecewise(t)(false))
 	}
 	commands["PWLAY"] = func(t *toks, w *bufio.Writer) {
-		// the layouts come first but need the values: remember the layout tokens, read the table, then build
+		// the layouts come first but need the values: remember where they start, read the table, then build
 		start := t.i
-		skip := func() {
-			switch t.next() {
-			case "P":
-			case "COL", "COL2", "STR2":
-				t.i += 5
-			case "COLSTR", "STR":
-				t.i += 4
-			default:
-				panic("bad layout")
-			}
-		}
-		skip()
+		c18skipLayout(t)
 		ystart := t.i
-		skip()
+		c18skipLayout(t)
 		n := t.int()
 		xv := t.floats(n)
 		yv := t.floats(n)
 		q := unhex(t.next())
-		xs, xbuf := c18layout(&toks{t: t.t, i: start}, xv)
-		ys, ybuf := c18layout(&toks{t: t.t, i: ystart}, yv)
-		y, err := fn.Piecewise(q, xs, ys)
-		runtime.KeepAlive(xbuf)
-		runtime.KeepAlive(ybuf)
-		if err != nil {
-			fmt.Fprintln(w, "ERR")
-			return
+		xs := c18layout(&toks{t: t.t, i: start}, xv)
+		ys := c18layout(&toks{t: t.t, i: ystart}, yv)
+		fmt.Fprintln(w, c18lookup(q, xs.view, ys.view))
+		runtime.KeepAlive(xs.buf)
+		runtime.KeepAlive(ys.buf)
+	}
+	commands["PWOPS"] = func(t *toks, w *bufio.Writer) {
+		t.expect("T")
+		nt := t.int()
+		xt := make([]c18tab, nt)
+		yt := make([]c18tab, nt)
+		for i := 0; i < nt; i++ {
+			start := t.i
+			c18skipLayout(t)
+			ystart := t.i
+			c18skipLayout(t)
+			n := t.int()
+			xv := t.floats(n)
+			yv := t.floats(n)
+			xt[i] = c18layout(&toks{t: t.t, i: start}, xv)
+			yt[i] = c18layout(&toks{t: t.t, i: ystart}, yv)
 		}
-		fmt.Fprintf(w, "OK %s\n", c18hex(y))
+		t.expect("OPS")
+		m := t.int()
+		var outs []string
+		for o := 0; o < m; o++ {
+			op := t.next()
+			ti := t.int()
+			tab := xt[ti]
+			if len(op) == 2 && op[1] == 'Y' {
+				tab = yt[ti]
+			}
+			switch op {
+			case "L":
+				outs = append(outs, c18lookup(unhex(t.next()), xt[ti].view, yt[ti].view))
+			case "SX", "SY": // one knot, through the table object
+				k := t.int()
+				tab.view.Set([]int{k}, unhex(t.next()))
+			case "BX", "BY": // one knot, through the array the table is a view of
+				k := t.int()
+				tab.parent.Set(tab.pidx(k), unhex(t.next()))
+			case "WX", "WY": // the whole table, knot by knot through the table object
+				for k, v := range t.floats(tab.view.Len1()) {
+					tab.view.Set([]int{k}, v)
+				}
+			case "PX", "PY": // the whole table, through the parent
+				for k, v := range t.floats(tab.view.Len1()) {
+					tab.parent.Set(tab.pidx(k), v)
+				}
+			case "CX", "CY": // the whole table with CopyFrom
+				vals := t.floats(tab.view.Len1())
+				src := data.NewArray1DFloat64(len(vals))
+				for k, v := range vals {
+					src.Set1(k, v)
+				}
+				tab.view.CopyFrom(src)
+			default:
+				panic("bad PWOPS op " + op)
+			}
+		}
+		fmt.Fprintf(w, "OK O %d | %s\n", len(outs), strings.Join(outs, " | "))
+		for i := range xt {
+			runtime.KeepAlive(xt[i].buf)
+			runtime.KeepAlive(yt[i].buf)
+		}
 	}
 	commands["NEST"] = func(t *toks, w *bufio.Writer) {
 		depth := t.int()
@@ -383,6 +479,27 @@ func init() {
 		var trace []string
 		c18nest(levels, 0, 0, &trace) // a panic (inner "Invalid range") propagates to main's recover
 		fmt.Fprintf(w, "OK T %d | %s\n", len(trace), strings.Join(trace, " | "))
+	}
+	commands["SEQ"] = func(t *toks, w *bufio.Writer) {
+		k := t.int()
+		items := make([]func(bool) string, k)
+		for i := range items {
+			switch kind := t.next(); kind {
+			case "ROOT":
+				items[i] = c18parseRoot(t)
+			case "PIECEWISE":
+				items[i] = c18parsePiecewise(t)
+			default:
+				panic("bad SEQ item " + kind)
+			}
+		}
+		t.expect("ORDER")
+		m := t.int()
+		outs := make([]string, m)
+		for p := 0; p < m; p++ {
+			outs[p] = items[t.int()](false)
+		}
+		fmt.Fprintf(w, "OK S %d | %s\n", m, strings.Join(outs, " | "))
 	}
 	commands["PAR"] = func(t *toks, w *bufio.Writer) {
 		g := t.int()
